@@ -44,6 +44,7 @@ PRE = [
     "t: list = list(1 to %d)" % N,          # an annotated variable: op-assignment must still empty it while the operator runs
     "e := {:[]}", "e[1] = list(1 to %d)" % N,   # a dict WITH a default whose entry is a payload: `e[1] f= v` must empty the entry while f runs
     "g := {1: list(1 to %d), 2: [5]}" % N,      # the same without a default
+    "w := [1, 2, 3]", "w2 := V(1, 2)", "w3 := B[1, 2]",    # small right operands held by a variable (shared when the builtin sees them)
     "b := null", "c := null",
 ]
 VARS = ["a", "b", "c", "d", "e", "g", "m", "q", "s", "t", "v", "y"]
@@ -60,6 +61,9 @@ MENU = [
     # the same field through the symbol-access spelling
     ("q::fld append= 5", "mut", "q", ["f0"]), ("q::fld ++= [1]", "mut", "q", ["f0"]), ("q::fld[2] = 9", "mut", "q", ["f0"]), ("q::fld[3] += 1", "mut", "q", ["f0"]),
     ("pop q::fld", "mut", "q", ["f0"]),
+    # the right operand is held by a variable: the LEFT operand is still unshared and must be extended in place
+    ("a ++= w", "mut", "a", []), ("m[1] ++= w", "mut", "m", [1]), ("q[fld] ++= w", "mut", "q", ["f0"]), ("v ++= w2", "mut", "v", []), ("y ++= w3", "mut", "y", []),
+    ("t ++= w", "mut", "t", []), ("e[1] ++= w", "mut", "e", ["k0"]), ("a append= w", "mut", "a", []),
     ("t append= 1", "mut", "t", []), ("t ++= [1]", "mut", "t", []), ("t[5] = 7", "mut", "t", []), ("t[6] += 1", "mut", "t", []),
     ("e[1] append= 5", "mut", "e", ["k0"]), ("e[1] ++= [1]", "mut", "e", ["k0"]), ("e[1][2] = 7", "mut", "e", ["k0"]), ("e[1][3] += 1", "mut", "e", ["k0"]),
     ("pop e[1]", "mut", "e", ["k0"]), ("g[1] append= 5", "mut", "g", ["k0"]), ("g[1][2] = 7", "mut", "g", ["k0"]), ("g[2] append= 1", "mut", "g", ["k1"]),
@@ -222,6 +226,9 @@ LOOPS = [
     ("list-pop", "x := list(1 to {n})", "for (i <- 1 to {k}) pop x"),
     ("list-remove-end", "x := list(1 to {n})", "for (i <- 1 to {k}) remove x[-1]"),
     ("list-concat", "x := list(1 to {n})", "for (i <- 1 to {k}) x ++= [i]"),
+    ("list-concat-var", "x := list(1 to {n}); w := [0, 0]", "for (i <- 1 to {k}) x ++= w"),
+    ("vector-concat-var", "x := vector(list(1 to {n})); w := V(0, 0)", "for (i <- 1 to {k}) x ++= w"),
+    ("bytes-concat-var", "x := bytes((1 to {n}) map (% 256)); w := B[0, 0]", "for (i <- 1 to {k}) x ++= w"),
     ("dict-op", "x := dict((0 til {n}) map (\\i -> [i, i]))", "for (i <- 0 til {k}) x[i % {n}] += 1"),
     ("dict-set", "x := dict((0 til {n}) map (\\i -> [i, i]))", "for (i <- 0 til {k}) x[i % {n}] = i"),
     ("dict-add-key", "x := {{}}", "for (i <- 0 til {k}) x |.= i"),
